@@ -374,4 +374,29 @@ Proof. eexists; eexists. split; [vm_compute; reflexivity | vm_compute; reflexivi
             ("C06_size", "@check", "C06_size"),
             ("C06_empty", "@check", "C06_empty"),
             ("C06_tree_iface_holds", "@check", "tree_iface_holds")]),
+ "C08": dict(
+   header="""   C08 — CompressedPGMIndex honours the same search contract as PGMIndex.  PARTIAL (DESIGN.md 6.8).
+   The executable model covers the whole class bit-exactly, including the x87 long double arithmetic of
+   get_slope_range / get_intersection / merge_slopes and the float products (validated on every run).
+   Proved:
+   * C08_merge_slope_feasible: in exact arithmetic, ANY slope between a segment's two extreme slopes, through
+     the intersection point of its two extreme lines, stays inside the band wherever both extreme lines do
+     (C03 proves both extreme lines feasible) -- the reason slopes may be shared between segments;
+   * C08_mid_in_range: the table slope (min+max)/2 of a group lies inside the group's intersected range;
+   * C08_intercepts_increasing / C08_get_intercept_in_bounds: the clamped intercepts stored by a successfully
+     built level strictly increase below the bitvector size, and get_intercept never reads outside them;
+   * C08_clamp_*: clamping facts; C08_window_*: the range arithmetic shared with C01/C02.
+   NOT proved: the floating-point error of the intersection point, of the rounded table slope and of the float
+   product (named hypothesis compressed_fp_close in DESIGN.md), and the composition with routing.
+   These are tied by the exact correspondence and judged per query (C01/C02 predicates, all key widths,
+   EpsilonRecursive 0, small, and above the linear-search threshold, far queries, last key = max-1).""",
+   imports=["Base", "Fp", "PlaModel", "PlaSpec", "GenLeaf", "IndexModel", "IndexProofs", "CompressedModel", "CompressedProofs"],
+   entries=[("C08_merge_slope_feasible", "CompressedProofs.v", "merge_slope_feasible"),
+            ("C08_mid_in_range", "CompressedProofs.v", "mid_in_range"),
+            ("C08_intercepts_increasing", "CompressedProofs.v", "clevel_intercepts_increasing"),
+            ("C08_get_intercept_in_bounds", "CompressedProofs.v", "get_intercept_in_bounds"),
+            ("C08_clamp_bounds", "CompressedProofs.v", "clamp_bounds"),
+            ("C08_clamp_monotone", "CompressedProofs.v", "clamp_monotone"),
+            ("C08_window_present", "IndexProofs.v", "window_present"),
+            ("C08_window_absent", "IndexProofs.v", "window_absent")]),
 }
